@@ -39,6 +39,14 @@ example : handleRequest (exWorld 60 true) (some ⟨7, .apiToken 7 9 50 (some 100
     (.other .modifyRequest) = (.disconnect .protocolError, []) := by decide
 example : (WireOp.all.filter WireOp.isUpdate).length = 5 := by decide
 
+/-- … and the refusal ends the connection without touching its session (`client_process`:
+`Disconnect` ⇒ send the notice, `break`). -/
+theorem update_ops_close_connection (c : Conn) (w : World) (m : Msg) (h : m.wireOp.isUpdate = true) :
+    (c.step w m).1 = ⟨c.session, true⟩ := by
+  unfold Conn.step
+  rw [update_ops_refused w c.session m h]
+  rfl
+
 /-- Anything that is not one of the five operations is refused the same way (responses sent as
 requests, SASL binds, abandon, …). -/
 theorem undispatched_refused (w : World) (st : Option Token) (m : Msg)
@@ -99,6 +107,7 @@ theorem only_delayed_action_is_pw_upgrade (w : World) (dn : List Char) (pw : Nat
   · rw [hb] at hd; simp at hd
   · rw [hb] at hd ⊢
     unfold authLdap at hd
+    simp only [anonymousTestIsUuidEq, Bool.true_and] at hd
     by_cases hu : u == w.anonymous
     · simp only [hu, if_true] at hd
       repeat' split at hd
@@ -125,7 +134,7 @@ theorem only_delayed_action_is_pw_upgrade (w : World) (dn : List Char) (pw : Nat
                 refine ⟨a, by rw [hd, hau], by rw [hau]; exact hbt, by rw [hau]; exact h1, h4,
                   by rw [← h6]; exact hup, hflag, ?_⟩
                 have hne : (u == w.anonymous) = false := by simpa using hu
-                simp [authLdap, hne, unixFlagGuard, hflag, hap, hau]
+                simp [authLdap, anonymousTestIsUuidEq, hne, unixFlagGuard, hflag, hap, hau]
               · simp [hup] at hd
   · rw [hb, tokenAuthLdap_delayed] at hd; simp at hd
   · rw [hb, applicationAuthLdap_delayed] at hd; simp at hd
@@ -285,7 +294,7 @@ theorem token_bind_identity_is_tokens (w : World) (dn : List Char) (pw : Nat) (s
   · rw [hb] at hb'; cases hb'
   · rw [hb] at hb'; cases hb'
   · rw [hd] at h
-    rcases tokenAuthLdap_ok h with ⟨a, s, e, pu, h1, h2, _⟩ | ⟨a, ti, i, e, pu, h1, h2, _⟩
+    rcases tokenAuthLdap_ok h with ⟨a, s, e, pu, h1, h2, _, _⟩ | ⟨a, ti, i, e, pu, h1, h2, _, _, _⟩
     · refine Or.inl ⟨a, s, e, pu, h1, h2, ?_⟩
       intro w' id hv
       rw [h2, validate_uat] at hv
@@ -303,6 +312,24 @@ example : bindTarget (exWorld 60 true) "dn=token".toList 5 = .ok .apiToken ∧
     validateLdapSession (exWorld 70 true) (.apiToken 7 9 50 (some 100) .readWrite) = .ok ⟨7, .readWrite⟩ ∧
     nativeTokenIdent (exWorld 70 true) 5 = .ok ⟨7, .readWrite⟩ := by decide
 
+/-- A token bind succeeds only if the session it creates is usable at that moment: the identity
+builder of the token kind (account inside its validity window, session still stored / not
+revoked) is run before the token is handed out (`token_auth_ldap`, regenerated flags). -/
+theorem token_bind_validated_at_bind (w : World) (dn : List Char) (pw : Nat) (sl : Bool) (t : Token)
+    (hb : bindTarget w dn pw = .ok .apiToken) (h : (doBind w dn pw sl).res = .ok (some t)) :
+    ∃ id, validateLdapSession w t.session = .ok id := by
+  rcases doBind_cases w dn pw sl with ⟨e, hb', _⟩ | ⟨u', hb', _⟩ | ⟨_, hd⟩ | ⟨a, u', hb', _⟩
+  · rw [hb] at hb'; cases hb'
+  · rw [hb] at hb'; cases hb'
+  · rw [hd] at h
+    rcases tokenAuthLdap_ok h with ⟨a, s, e, pu, _, h2, _, id, h3⟩ | ⟨a, ti, i, e, pu, _, h2, _, _, id, h3⟩
+    · exact ⟨id, by rw [h2, validate_uat]; exact h3⟩
+    · exact ⟨id, by rw [h2, validate_apit]; exact h3⟩
+  · rw [hb] at hb'; cases hb'
+
+example : (doBind { exWorld 60 true with apiSessions := [], grace := 0 } "dn=token".toList 5 false).res
+    = .error .sessionExpired := by decide
+
 /-- While the token is unexpired and still verifies to the same content, the identity a
 token-bound LDAP session runs as is exactly the identity the native API derives from the same
 token presented as a bearer token (both end in the same two builders). -/
@@ -319,34 +346,29 @@ theorem token_session_identity_eq_native (w w' : World) (dn : List Char) (pw : N
   · rw [hb] at hb'; cases hb'
   · rw [hb] at hb'; cases hb'
   · rw [hd] at h
-    rcases tokenAuthLdap_ok h with ⟨a, s, e, pu, h1, h2, _⟩ | ⟨a, ti, i, e, pu, h1, h2, _⟩
+    rcases tokenAuthLdap_ok h with ⟨a, s, e, pu, h1, h2, _, _⟩ | ⟨a, ti, i, e, pu, h1, h2, _, _, _⟩
     · have hl := hlive _ h1
       simp only at hl
       rw [h2, validate_uat]
       unfold nativeTokenIdent
       rw [hsame, h1]
-      cases e with
-      | none => simp
-      | some x =>
-        have := hl x rfl
-        have hx : ¬ x ≤ w'.ct := by omega
-        simp [hx]
+      have he : uatExpired w' e = false := by
+        cases e with
+        | none => rfl
+        | some x => have := hl x rfl; simp [uatExpired]; omega
+      simp [he]
     · have hl := hlive _ h1
       simp only at hl
       rw [h2, validate_apit]
       unfold nativeTokenIdent
       rw [hsame, h1]
-      cases e with
-      | none =>
-        cases hacc : w'.acct a with
-        | none => simp [processApit, hacc]
-        | some acc => simp [hacc]
-      | some x =>
-        have := hl x rfl
-        have hx : ¬ w'.ct ≥ x := by omega
-        cases hacc : w'.acct a with
-        | none => simp [processApit, hacc, hx]
-        | some acc => simp [hx, hacc]
+      have he : apitExpired w' e = false := by
+        cases e with
+        | none => rfl
+        | some x => have := hl x rfl; simp [apitExpired]; omega
+      cases hacc : w'.acct a with
+      | none => simp [processApit, hacc, he]
+      | some acc => simp [he, hacc]
   · rw [hb] at hb'; cases hb'
 
 /-- The unrestricted version of the previous theorem is false: -/
